@@ -76,7 +76,7 @@ type VCtx struct {
 	props     []string
 	decls     []string
 	declSet   map[string]bool
-	facts     []string
+	facts     []factRec
 	nfresh    int
 	heapSorts map[string]Sort
 	obls      []*Obligation
@@ -150,7 +150,108 @@ func (c *VCtx) fact(t *Term) {
 	if t == nil || t.S == "true" {
 		return
 	}
-	c.facts = append(c.facts, t.S)
+	c.facts = append(c.facts, factRec{S: t.S, syms: symsOf(t.S)})
+}
+
+// defFact adds a definitional fact: it only constrains the fresh symbol def (a conservative extension),
+// so obligations that do not mention def can leave it out.
+func (c *VCtx) defFact(def *Term, t *Term) {
+	c.facts = append(c.facts, factRec{S: t.S, syms: symsOf(t.S), defines: def.S})
+}
+
+type factRec struct {
+	S       string
+	syms    []string
+	defines string
+}
+
+var smtBuiltins = map[string]bool{"and": true, "or": true, "not": true, "ite": true, "select": true, "store": true, "forall": true, "exists": true,
+	"true": true, "false": true, "mod": true, "div": true, "abs": true, "as": true, "const": true, "Array": true, "Int": true, "Bool": true, "Ref": true,
+	"Any": true, "Slice": true, "Str": true, "null": true, "zero_Any": true, "nil_slice": true, "let": true, "pattern": true, "distinct": true,
+	"mk-slice": true, "s-arr": true, "s-off": true, "s-len": true, "s-cap": true, "mk-str": true, "str-len": true, "str-data": true,
+	"gorem": true, "godiv": true, "wrap_s": true, "wrap_u": true, "pow2": true, "shr": true, "streq": true, "hasprefix": true}
+
+// symsOf lists the user symbols of an SMT term string.
+func symsOf(s string) []string {
+	seen := map[string]bool{}
+	var out []string
+	i := 0
+	for i < len(s) {
+		c := s[i]
+		switch {
+		case c == '|':
+			j := strings.IndexByte(s[i+1:], '|')
+			tok := s[i : i+j+2]
+			if !seen[tok] {
+				seen[tok] = true
+				out = append(out, tok)
+			}
+			i += j + 2
+		case c == '(' || c == ')' || c == ' ' || c == '\n' || c == '\t':
+			i++
+		default:
+			j := i
+			for j < len(s) && !strings.ContainsRune("() \n\t|", rune(s[j])) {
+				j++
+			}
+			tok := s[i:j]
+			i = j
+			if tok == "" || smtBuiltins[tok] || tok[0] == ':' || (tok[0] >= '0' && tok[0] <= '9') || tok == "=" || tok == "=>" || tok == "<" || tok == "<=" || tok == ">" || tok == ">=" || tok == "+" || tok == "-" || tok == "*" || tok == "!" || tok == "_" {
+				continue
+			}
+			if !seen[tok] {
+				seen[tok] = true
+				out = append(out, tok)
+			}
+		}
+	}
+	return out
+}
+
+// sliceFacts returns the facts relevant to the given goal symbols (cone of influence).
+func (c *VCtx) sliceFacts(n int, seeds []string) []string {
+	cone := map[string]bool{}
+	for _, s := range seeds {
+		cone[s] = true
+	}
+	inc := make([]bool, n)
+	for changed := true; changed; {
+		changed = false
+		for i := 0; i < n; i++ {
+			if inc[i] {
+				continue
+			}
+			f := &c.facts[i]
+			take := false
+			if f.defines != "" {
+				take = cone[f.defines]
+			} else {
+				for _, s := range f.syms {
+					if cone[s] {
+						take = true
+						break
+					}
+				}
+				if len(f.syms) == 0 {
+					take = true
+				}
+			}
+			if take {
+				inc[i] = true
+				changed = true
+				for _, s := range f.syms {
+					cone[s] = true
+				}
+			}
+		}
+	}
+	var out []string
+	for i := 0; i < n; i++ {
+		if inc[i] {
+			out = append(out, c.facts[i].S)
+		}
+	}
+	return out
 }
 
 // name introduces a named constant for a large term.
@@ -160,7 +261,7 @@ func (c *VCtx) name(prefix string, t *Term) *Term {
 	}
 	n := c.fresh(prefix, t.Sort)
 	n.GT = t.GT
-	c.fact(Eq(n, t))
+	c.defFact(n, Eq(n, t))
 	return n
 }
 
@@ -223,7 +324,7 @@ func (c *VCtx) prove(kind, desc string, guard, goal *Term, vars map[string]strin
 		sb.WriteString(d)
 		sb.WriteString("\n")
 	}
-	for _, f := range c.facts {
+	for _, f := range c.sliceFacts(len(c.facts), append(symsOf(guard.S), symsOf(goal.S)...)) {
 		sb.WriteString("(assert ")
 		sb.WriteString(f)
 		sb.WriteString(")\n")
@@ -842,9 +943,9 @@ func (c *VCtx) strLit(s string) *Term {
 	key := "lit:" + name
 	if !c.declSet[key] {
 		c.declSet[key] = true
-		c.facts0(Eq(StrLen(t), IntLit(int64(len(s)))))
+		c.defFact(t, Eq(StrLen(t), IntLit(int64(len(s)))))
 		for i := 0; i < len(s); i++ {
-			c.facts0(Eq(Select(StrData(t), IntLit(int64(i))), IntLit(int64(s[i]))))
+			c.defFact(t, Eq(Select(StrData(t), IntLit(int64(i))), IntLit(int64(s[i]))))
 		}
 	}
 	return t
